@@ -38,7 +38,7 @@ P = {
          'the same formula for EVERY N (rank-nullity, symplectic complements, maximal isotropy; also enumerated for N<=3); the partial trace of rho over the complement IS the density matrix of a valid stabilizer tableau of log2-rank entropy(A) (theorem in the ket semantics); empty/full region; generator independence. Outside Coq only: -Tr rho log2 rho = r for a flat spectrum on 2^r dimensions.',
          'Coq proof (GF(2) linear algebra for the rank function as implemented; partial trace) + finite enumeration (vm_compute) + correspondence with dense von Neumann entropy oracle', '5/C08'),
  'C12': ('Theorems for all N: to_state = the map applied to |0..0> row by row with signs, both round trips, validity; stabilizer_state on an independent commuting signed list has rank N-L and exactly the '
-         'input as active rows in order, rejects anticommuting input; zero/one/mixed constructors; GHZ for every N (accepted, pure, valid, rows = the documented list, correlations +1). Dense density matrices and to_qutip compared by correspondence.',
+         'input as active rows in order, rejects anticommuting input; zero/one/random-bit/maximally-mixed constructors ARE |0..0><0..0|, |1..1><1..1|, |b><b|, 2^-N identity entry by entry; random-product states have single-site stabilizers and entropy 0 on every region; GHZ for every N (accepted, pure, valid, rows = the documented list, correlations +1). Dense density matrices and to_qutip compared by correspondence.',
          'Coq proof + correspondence (dense oracle, three input formats) + reused-object histories', '5/C12'),
  'C13': ('PARTIAL by design: proved that every formula/table re-extracted from torchclifford on each run equals its pyclifford twin; control flow of the vectorised kernels tied by the three-way '
          'correspondence numpy == torch == model over the shared surface (enumerated, unmatched names reported). Open port findings listed in known_findings.json.',
